@@ -127,7 +127,7 @@ class Renderer:
         elif t in ('var', 'macro'):
             # may hold a name (string): braces are for numeric values
             self.expr(e, out)
-        elif self.chance(self.brace_single):
+        elif not (t == 'num' and e[1] < 0) and self.chance(self.brace_single):
             out.append(Tok('{'))
             self.expr(e, out)
             out.append(Tok('}'))
